@@ -169,7 +169,10 @@ def run_case(case):
     hook = None
     if mode == 'j2+late':
         def hook(layer, args):
-            return ('mangle', lambda out, err: (out, err + b'Exception ignored in: <function f at 0x7f>\nlate text on stderr\n'))
+            # ... and lines before it that end / begin with three integers
+            # without being a header (a logging handler, a C library)
+            return ('mangle', lambda out, err: (out, b'fixtures: schema loaded: 40 0 0\n3 0 0 requests queued\n' + err +
+                                                b'Exception ignored in: <function f at 0x7f>\nlate text on stderr\n'))
     res = runrt.run_world(spec, argv, child_hook=hook,
                           child_stderr_encoding='latin-1' if mode == 'j2+latin1' else None)
     sv = monitors.SpecView(spec)
